@@ -191,9 +191,23 @@ type (
 	B struct{ Y int }
 )
 
+// a second group: only the FIRST member carries a doc of its own; it belongs to that member alone
+type (
+	//«g1»
+	C struct{ Z int }
+	D struct{ W int }
+	E struct{ V int }
+)
+
 func Write(a *A, b *B) {
 	a.X = 1 // GA
 	b.Y = 2 // GB
+}
+
+func Write2(c *C, d *D, e *E) {
+	c.Z = 1 // GC
+	d.W = 2 // GD
+	e.V = 3 // GE
 }
 `
 
@@ -210,5 +224,7 @@ func ZZC12GroupDoc() {
 	CheckExact(res.Diags, []Expect{
 		{f, nd.LineOf(c12SrcGroup, "GA"), "IMM01", grp},
 		{f, nd.LineOf(c12SrcGroup, "GB"), "IMM01", nd.Or(grp, own)},
+		{f, nd.LineOf(c12SrcGroup, "GC"), "IMM01", own},
+		// GD, GE: nothing — a member's own doc does not reach the members after it
 	}, "C12 ordinary comments inside an annotated type group")
 }
